@@ -16,3 +16,22 @@ Theorem C08_frag_bounded : forall P hist,
   forall f, In (DFrame f) rs -> nlen f <= N.max cap P.
 Proof. exact bounded. Qed.
 Print Assumptions C08_frag_bounded.
+
+(* ---- the translated length test, accumulation and cap of rtpfragmented/decoder.go (spec.d/frag.txt) ----
+   len(pkt.Payload) == 0, d.fragmentsSize += len(pkt.Payload), d.fragmentsSize > mpeg4video.MaxFrameSize are the tests of
+   Model.dec (cap = GVG.Consts.mpeg4video_max_frame). *)
+From Coq Require Import ZArith.
+From GVG Require Import Kern.
+From GV_frag Require Import BridgeLib BridgeSites.
+Open Scope Z_scope.
+Theorem C08_frag_kernels_are_the_code : forall (pl : bytes) (fs : N), Z.of_N (fs + nlen pl) < i64max ->
+  k_frag_dec_empty (Z.of_N (nlen pl)) = (nlen pl =? 0)%N /\
+  k_frag_dec_acc (Z.of_N fs) (Z.of_N (nlen pl)) = Z.of_N (fs + nlen pl) /\
+  k_frag_dec_cap (k_frag_dec_acc (Z.of_N fs) (Z.of_N (nlen pl))) (Z.of_N cap) = (cap <? fs + nlen pl)%N.
+Proof. exact caps_sites_are_the_code. Qed.
+Print Assumptions C08_frag_kernels_are_the_code.
+
+Example C08_frag_example_kernels :
+  k_frag_dec_cap (k_frag_dec_acc (Z.of_N cap - 5) 5) (Z.of_N cap) = false /\
+  k_frag_dec_cap (k_frag_dec_acc (Z.of_N cap - 5) 6) (Z.of_N cap) = true /\ k_frag_dec_empty 0 = true.
+Proof. vm_compute. repeat split. Qed.
